@@ -21,8 +21,8 @@ ID = "C15"
 LEVEL = "exploration"
 RULE = (
     "input = random bytes (0..300) | truncation / 1..5-octet tag-aware mutation / FF run / insertion / deletion / tag swap of a genuine message (28 fixture messages, generated lists of the three vendors in both forms, "
-    "Kaifa list-1 messages whose register holds '(' / ')' octets, P1 blocks) | ASCII fragment over 0-9 . : - ( ) * CR LF with unbalanced parentheses and trailing garbage, numeric extremes (inf, nan, 1e309, 400 digits) in unit-converted values | structured junk (well-formed Kaifa value lists of undocumented lengths, frames with other LLC octets, unknown Kamstrup OBIS, null APDU date-time, FF date-time fields) | size sweep to 8 KiB; "
-    "each input is given to an AutoDecoder in each of the 8 remembered-decoder states (fresh + primed with a genuine message of each of the 7 decoders), through decode_message_payload and through "
+    "Kaifa list-1 messages whose register holds '(' / ')' octets, P1 blocks) | ASCII fragment over 0-9 . : - ( ) * CR LF with unbalanced parentheses and trailing garbage, numeric extremes (inf, nan, 1e309, 400 digits) in unit-converted values, runs of 25..1500 characters of one class followed by a character of another class in value / unit / address position | structured junk (well-formed Kaifa value lists of undocumented lengths, frames with other LLC octets, unknown Kamstrup OBIS, null APDU date-time, FF date-time fields) | size sweep to 8 KiB; "
+    "each input is given to an AutoDecoder in each of the 8 remembered-decoder states (fresh + primed with a streak of 1..9 genuine messages of each of the 7 decoders), through decode_message_payload and through "
     "decode_message(DlmsMessage / DataReadout). evaluations = monitored calls; distinct non-trivial = distinct (input, state) pairs where the input is not itself a genuine message."
 )
 ASSUMPTIONS = [
@@ -30,7 +30,7 @@ ASSUMPTIONS = [
     "memory bound 2 MiB + 20 KiB x len(input) by tracemalloc peak on every 10th call",
 ]
 WATCHDOG_S = {"quick": 900, "thorough": 7200}
-N = {"quick": 420, "thorough": 19000}
+N = {"quick": 330, "thorough": 19000}
 
 
 def plan(tier, seed):
@@ -47,6 +47,7 @@ class Harness:
 
         self.AutoDecoder = AutoDecoder
         self.ctx = ctx
+        self.rng = rng
         self.budget = steps.StepBudget()
         self.genuine = pool.genuine(rng)
         self.primers = {}
@@ -58,8 +59,12 @@ class Harness:
     def primed(self, state):
         dec = self.AutoDecoder()
         if state is not None:
+            # a streak of 1..12 successes of the same decoder (an implementation may treat an 'established' meter specially)
+            streak = self.rng.choice((1, 1, 1, 1, 2, 5, 6, 9))
+            self.ctx.seen("primer_streak_lengths", streak)
             try:
-                dec.decode_message_payload(self.primers[state])
+                for _ in range(streak):
+                    dec.decode_message_payload(self.primers[state])
             except BaseException:
                 self.ctx.count("primer_raised")
             if dec.previous_success_decoder != state:
